@@ -5,6 +5,16 @@ from .parameter import Parameter, ParamType
 from .gatedef import IdleGateDefinition
 
 
+def _drop_stretch_factor(parent_unitary):
+    """Return the ideal unitary of a stretched gate: its parent's, ignoring
+    the last argument, which is the stretch factor."""
+
+    def ideal_unitary(*args):
+        return parent_unitary(*args[:-1])
+
+    return ideal_unitary
+
+
 def stretched_gates(gates, *, suffix=None, update=False):
     """Generate stretched GateDefinitions from parent GateDefinitions
 
@@ -42,8 +52,7 @@ def stretched_gates(gates, *, suffix=None, update=False):
         parameters.append(Parameter("stretch", ParamType.FLOAT))
 
         if gate.ideal_unitary:
-            # Drop the last argument, which is the stretch factor
-            ideal_unitary = lambda *args: gate.ideal_unitary(args[:-1])
+            ideal_unitary = _drop_stretch_factor(gate.ideal_unitary)
         else:
             ideal_unitary = None
 
